@@ -46,7 +46,7 @@ structure St where
   queue : List Entry := []
   matchers : List (Option Entry) := []
   called : List (Bool × Entry) := []
-deriving Repr
+deriving Repr, DecidableEq
 
 inductive Op where
   | hand (w : Nat)
@@ -188,7 +188,7 @@ def busy {α} : List (Option α) → Nat
   | some _ :: t => 1 + busy t
 
 /-- termination measure: strictly decreases on every enabled progress op -/
-def measure (s : St) : Nat :=
+def scanMeasure (s : St) : Nat :=
   4 * (s.end_ - s.cursor) + 3 * remaining s.workers + 2 * s.queue.length + busy s.matchers + (if s.closed then 0 else 1)
 
 end CTV.Model.Scan
